@@ -8,3 +8,10 @@ def run(chk):
                 "(3) every mutator of primary state marks the tree stale or sits in a deferred-update bracket, and every accessor of derived state refreshes first.")
     core_rules.security_update(chk, "C01")
     core_rules.strategy_update(chk, "C01")
+    core_rules.transact_rules(chk, "C01")
+    core_rules.adjust_rules(chk, "C01")
+    n = core_rules.defer_rules(chk, "C01")
+    chk.floor_count("C01.R6:deferred-update call sites", n, 7)
+    core_rules.accessor_rules(chk, "C01")
+    core_rules.fresh_read_rules(chk, "C01")
+    core_rules.update_after_liquidation(chk, "C01")
